@@ -1,0 +1,78 @@
+//! Verification hooks. Compiled only with the cargo feature `verif-hooks`
+//! (off by default); nothing here is reachable from a default build.
+//!
+//! * `yield_point` — a per-thread callback invoked before each atomic step of
+//!   the memory pool, so an external harness can own the interleaving.
+//! * `mark` / `take_marks` — global path counters (which physical path a
+//!   query took), for coverage evidence only.
+//! * threshold overrides — let small generated files reach planner paths that
+//!   are normally gated on table size.
+
+use std::cell::RefCell;
+use std::collections::BTreeMap;
+use std::sync::atomic::{AtomicBool, Ordering};
+use std::sync::Mutex;
+
+thread_local! {
+    static YIELD: RefCell<Option<Box<dyn Fn(&'static str)>>> = const { RefCell::new(None) };
+}
+
+/// Install (or clear) this thread's yield callback.
+pub fn set_yield_callback(cb: Option<Box<dyn Fn(&'static str)>>) {
+    YIELD.with(|y| *y.borrow_mut() = cb);
+}
+
+/// Called by instrumented code before a shared-memory step.
+#[inline]
+pub fn yield_point(site: &'static str) {
+    YIELD.with(|y| {
+        if let Some(cb) = y.borrow().as_ref() {
+            cb(site);
+        }
+    });
+}
+
+static MARKS: Mutex<BTreeMap<&'static str, u64>> = Mutex::new(BTreeMap::new());
+
+/// Count one visit of a named path decision.
+pub fn mark(name: &'static str) {
+    if let Ok(mut m) = MARKS.lock() {
+        *m.entry(name).or_insert(0) += 1;
+    }
+}
+
+/// Return and reset all path counters.
+pub fn take_marks() -> BTreeMap<&'static str, u64> {
+    MARKS
+        .lock()
+        .map(|mut m| std::mem::take(&mut *m))
+        .unwrap_or_default()
+}
+
+static FORCE_BIG: AtomicBool = AtomicBool::new(false);
+static NO_PRESCAN: AtomicBool = AtomicBool::new(false);
+static FORCE_DISJOINT: AtomicBool = AtomicBool::new(false);
+
+/// Treat every Parquet table as above the streaming-scan size gate.
+pub fn set_force_big(v: bool) {
+    FORCE_BIG.store(v, Ordering::SeqCst);
+}
+pub fn force_big() -> bool {
+    FORCE_BIG.load(Ordering::SeqCst)
+}
+
+/// Treat every shared table as above `PRESCAN_MAX_BYTES`.
+pub fn set_no_prescan(v: bool) {
+    NO_PRESCAN.store(v, Ordering::SeqCst);
+}
+pub fn no_prescan() -> bool {
+    NO_PRESCAN.load(Ordering::SeqCst)
+}
+
+/// Make `disjoint_group_hint` accept any integer key range.
+pub fn set_force_disjoint(v: bool) {
+    FORCE_DISJOINT.store(v, Ordering::SeqCst);
+}
+pub fn force_disjoint() -> bool {
+    FORCE_DISJOINT.load(Ordering::SeqCst)
+}
